@@ -1562,8 +1562,8 @@ package p9
 //@   ensures result != nil && result.client == c && result.fid == fid && result.closed == 0
 // pool (C10): cached values are ones handed out before (1 <= v < start), start
 // never passes the limit, which is the sentinel (NOTAG / NOFID) itself.
-//@ define Ipool(p *pool) bool = 1 <= p.start && p.start <= p.limit && forall(i, 0, len(p.cache), 1 <= p.cache[i] && p.cache[i] < p.start)
-//@ define outstanding(p *pool, v uint64) bool = 1 <= v && v < p.start && forall(i, 0, len(p.cache), p.cache[i] != v)
+//@ define Ipool(p *pool) bool = 1 <= p.start && p.start <= p.limit && elemsbetween(p.cache, 1, p.start)
+//@ define outstanding(p *pool, v uint64) bool = 1 <= v && v < p.start && elemsnot(p.cache, v)
 //@ func (*pool).Get
 //@   requires[C10,C15,C16] held(p.mu) == 0
 //@   requires Ipool(p)
@@ -1731,12 +1731,12 @@ package p9
 //@   use clientMethod
 //@   ensures[C03] @closed-handle-ebadf old(c.closed) != 0 ==> errIs(result2, linux.EBADF) && ncalls("(*Client).sendRecv") == 0
 //@   at (*Client).sendRecv requires[C03] @request-type-defined-for-the-version typeis(arg0, *twalk)
-//@   at (*Client).sendRecv requires[C03] @twalk-carries-the-arguments typeis(arg0, *twalk) ==> unbox(arg0, *twalk).fid == c.fid && unbox(arg0, *twalk).newFID == fid(ghost("$got", uint64)) && unbox(arg0, *twalk).Names == names
+//@   at (*Client).sendRecv requires[C03] @twalk-carries-the-arguments typeis(arg0, *twalk) ==> unbox(arg0, *twalk).fid == c.fid && unbox(arg0, *twalk).newFID == fid(id) && unbox(arg0, *twalk).Names == names
 //@   ensures[C03] @one-request old(c.closed) == 0 ==> ncalls("(*Client).sendRecv") <= 1
 //@   ensures[C03] @error-is-the-servers ncalls("(*Client).sendRecv") == 1 ==> result2 == ghost("$lasterr", error)
 //@   ensures[C03] @returns-the-reply-fields result2 == nil ==> result0 == rwalk.QIDs
-//@   at (*pool).Put requires[C10] @fid-released-only-when-the-binding-was-refused ghost("$lasterr", error) != nil && ncalls("(*Client).sendRecv") == 1 && arg0 == ghost("$got", uint64)
-//@   at (*Client).newFile requires[C10] @handle-only-for-a-bound-fid ghost("$lasterr", error) == nil && ncalls("(*Client).sendRecv") == 1 && arg0 == fid(ghost("$got", uint64))
+//@   at (*pool).Put requires[C10] @fid-released-only-when-the-binding-was-refused ghost("$lasterr", error) != nil && ncalls("(*Client).sendRecv") == 1 && arg0 == id
+//@   at (*Client).newFile requires[C10] @handle-only-for-a-bound-fid ghost("$lasterr", error) == nil && ncalls("(*Client).sendRecv") == 1 && arg0 == fid(id)
 //@ func (*clientFile).Close
 //@   use clientMethod
 //@   ensures[C03,C10] @closed-handle-ebadf old(c.closed) != 0 ==> errIs(result, linux.EBADF) && ncalls("(*Client).sendRecv") == 0
@@ -1799,6 +1799,7 @@ package p9
 
 //@ func NewClient
 //@   modifies *
+//@   requires[C10,C15,C16] nolocks()
 //@   requires[C11,C13] @largest-fixed-part-is-small msgDotLRegistry.largestFixedSize >= 23 && msgDotLRegistry.largestFixedSize < 4096
 //@   requires[C12] forall(n, uint32, googleVersion(n) != "9P2000.L" && googleVersion(n) != "9P2000.u" && googleVersion(n) != "9P2000")
 //@   at (*Client).sendRecv requires[C12] @asks-with-its-msize-and-a-canonical-version typeis(arg0, *tversion) && unbox(arg0, *tversion).MSize == c.messageSize && typeis(arg1, *rversion)
@@ -1816,32 +1817,32 @@ package p9
 //@ func (*clientFile).xattrWalkRead
 //@   use clientMethod
 //@   requires[C13] c.client.payloadSize >= 1
-//@   at (*Client).sendRecv requires[C03] @txattrwalk-carries-the-arguments typeis(arg0, *txattrwalk) && unbox(arg0, *txattrwalk).fid == c.fid && unbox(arg0, *txattrwalk).Name == attr && unbox(arg0, *txattrwalk).newFID == fid(ghost("$got", uint64))
-//@   at (*pool).Put requires[C10] @fid-released-only-when-the-binding-was-refused ghost("$lasterr", error) != nil && arg0 == ghost("$got", uint64)
-//@   at (*Client).newFile requires[C10] @handle-only-for-a-bound-fid ghost("$lasterr", error) == nil && arg0 == fid(ghost("$got", uint64))
+//@   at (*Client).sendRecv requires[C03] @txattrwalk-carries-the-arguments typeis(arg0, *txattrwalk) && unbox(arg0, *txattrwalk).fid == c.fid && unbox(arg0, *txattrwalk).Name == attr && unbox(arg0, *txattrwalk).newFID == fid(id)
+//@   at (*pool).Put requires[C10] @fid-released-only-when-the-binding-was-refused ghost("$lasterr", error) != nil && arg0 == id
+//@   at (*Client).newFile requires[C10] @handle-only-for-a-bound-fid ghost("$lasterr", error) == nil && arg0 == fid(id)
 //@ func (*clientFile).GetXattr
 //@   use clientMethod
 //@   requires[C13] c.client.payloadSize >= 1
 //@ func (*Client).Attach
 //@   modifies *
 //@   requires[C10,C15,C16] nolocks()
-//@   at (*Client).sendRecv requires[C03] @tattach-carries-the-arguments typeis(arg0, *tattach) && unbox(arg0, *tattach).fid == fid(ghost("$got", uint64)) && unbox(arg0, *tattach).Auth.AttachName == name && unbox(arg0, *tattach).Auth.Authenticationfid == noFID
-//@   at (*pool).Put requires[C10] @fid-released-only-when-the-binding-was-refused ghost("$lasterr", error) != nil && arg0 == ghost("$got", uint64)
-//@   at (*Client).newFile requires[C10] @handle-only-for-a-bound-fid ghost("$lasterr", error) == nil && arg0 == fid(ghost("$got", uint64))
+//@   at (*Client).sendRecv requires[C03] @tattach-carries-the-arguments typeis(arg0, *tattach) && unbox(arg0, *tattach).fid == fid(id) && unbox(arg0, *tattach).Auth.AttachName == name && unbox(arg0, *tattach).Auth.Authenticationfid == noFID
+//@   at (*pool).Put requires[C10] @fid-released-only-when-the-binding-was-refused ghost("$lasterr", error) != nil && arg0 == id
+//@   at (*Client).newFile requires[C10] @handle-only-for-a-bound-fid ghost("$lasterr", error) == nil && arg0 == fid(id)
 
 // ---- sendRecv (C10) ------------------------------------------------------------------
 //@ func (*Client).waitAndRecv
 //@   abstract
 //@   modifies implsof(message), arrays(byte), arrays(string), arrays(QID), arrays(Dirent), mapof(c.pending), type:response.r
 //@ func (*Client).sendRecv
-//@   modifies *
+//@   modifies implsof(message), arrays(byte), arrays(string), arrays(QID), arrays(Dirent), arrays(error), arrays([]byte), arrays(uint64), mapof(c.pending), c.tagPool, type:response, type:buffer, type:ConnError, $lasterr, $got, $gotok, $wr, $rd, $ret.tag, $written, $ncalls, $n.*
 //@   requires[C10,C15,C16] nolocks()
 //@   ghost set $lasterr:error = result
 //@   at send requires[C10,C06] @frames-are-contiguous held(c.sendMu) == -1
-//@   at send requires[C10] @registered-before-sending has(c.pending, arg2) && c.pending[arg2] == resp && arg2 == tag(ghost("$got", uint64))
+//@   at send requires[C10] @registered-before-sending has(c.pending, arg2) && c.pending[arg2] == resp && arg2 == tag(t)
 //@   at send requires[C10,C03] @sends-the-callers-request arg3 == tm
-//@   at (*pool).Put requires[C10] @tag-returned-once-and-only-its-own arg0 == ghost("$got", uint64) && ncalls("(*pool).Put") == 0
+//@   at (*pool).Put requires[C10] @tag-returned-once-and-only-its-own arg0 == t && ncalls("(*pool).Put") == 0
 //@   at (*Client).waitAndRecv requires[C10] @waits-on-its-own-slot arg0 == resp.done && ncalls("send") == 1
 //@   ensures[C10] @tag-always-returned ncalls("(*pool).Get") == 1 && ghost("$gotok", bool) ==> ncalls("(*pool).Put") == 1
-//@   ensures[C10] @no-stale-pending-entry ncalls("send") == 1 && ncalls("(*Client).waitAndRecv") == 0 ==> !has(c.pending, tag(ghost("$got", uint64)))
+//@   ensures[C10] @no-stale-pending-entry ncalls("send") == 1 && ncalls("(*Client).waitAndRecv") == 0 ==> !has(c.pending, tag(t))
 //@   ensures[C15,C16] nolocks()
